@@ -163,6 +163,7 @@ func (a *agg) add(b *Batch, r *Result) {
 	if r.Sample != nil && len(a.samples) < 6 {
 		a.samples = append(a.samples, map[string]any{"batch": b.Name, "run_seed": r.Seed, "case": r.Sample})
 	}
+	r.Batch = b.Name
 	if r.V != nil {
 		a.vcount[r.V.Sig]++
 		if _, ok := a.violations[r.V.Sig]; !ok {
@@ -356,7 +357,7 @@ func doCheck(p *Prop, tier string, verifSeed uint64, lanes int, scale, maxMinute
 	reported := map[string]bool{}
 	for _, sig := range sigs {
 		r := a.violations[sig]
-		b := batchOf(p, r.Engine)
+		b := batchOf(p, r.Batch, r.Engine)
 		final := r
 		if shrunk < 6 {
 			shrunk++
@@ -405,7 +406,12 @@ func allWatchdog(infra []string) bool {
 	return true
 }
 
-func batchOf(p *Prop, engine string) *Batch {
+func batchOf(p *Prop, name, engine string) *Batch {
+	for i := range p.Batches {
+		if p.Batches[i].Name == name {
+			return &p.Batches[i]
+		}
+	}
 	for i := range p.Batches {
 		if p.Batches[i].Engine == engine {
 			return &p.Batches[i]
